@@ -23,6 +23,9 @@ func (v *Violation) String() string {
 // Abort is panicked by the harness itself to end a run early without a
 // verdict (e.g. a mismatch that belongs to another property's oracle, so that
 // the lock-step model can no longer be trusted for the rest of the run).
+// FailNow, when panicked with, ends the run with a violation (see exec1).
+type FailNow struct{ Inv, Key, Msg string }
+
 type Abort struct{ Reason string }
 
 // Run is one simulated execution.  Every nondeterministic decision goes
